@@ -9,7 +9,8 @@
 (*       (underlying sample id per position), refuseok                     *)
 (*  ev : {a:"refuse"} | {a:"err"} |                                        *)
 (*       {a:"acc", form, k, lo, hi, st, ks, lenres,                        *)
-(*        res: [ {n0, n1, out:[{it,s,cid}], bare, hasctx, ctxfresh} ]}     *)
+(*        res: [ {n0, n1, out:[{it,s,cid}], bare, hasctx, ctxfresh} ]} |   *)
+(*       {a:"helper", hm, hi, has, idx, got, changed, setlen, added, exc}  *)
 (***************************************************************************)
 EXTENDS ModeWrapper, Json, IOUtils, TLCExt
 
@@ -53,6 +54,18 @@ AccFailed(e) ==
          IF Len(e.res) # Len(exp) THEN {"SequenceSemantics"}
          ELSE UNION {ResFailed(e.res[j], exp[j]) : j \in 1..Len(exp)}
 
+\* the static helpers every collator uses to find / replace an item of a batch laid out by a mode string hm
+\* (position tags 1..Len(hm)): they must agree with the positions the mode string decides
+HelperFailed(e) ==
+  LET has == e.hi \in SeqRange(e.hm)
+      pos == IF has THEN FirstIndex(e.hm, e.hi) ELSE 0 IN
+    IF e.exc # "" THEN {"HelperException"}
+    ELSE (IF e.has = has THEN {} ELSE {"HelperHas"})
+      \cup (IF e.idx = pos - 1 THEN {} ELSE {"HelperIndex"})
+      \cup (IF has /\ e.got # pos THEN {"HelperGet"} ELSE {})
+      \cup (IF has /\ (e.changed # <<pos>> \/ e.setlen # Len(e.hm)) THEN {"HelperSet"} ELSE {})
+      \cup (IF e.added = (IF has THEN e.hm ELSE Append(e.hm, e.hi)) THEN {} ELSE {"HelperAdd"})
+
 TInit ==
   /\ tid \in 1..Len(Traces)
   /\ l = 1 /\ failed = {}
@@ -62,6 +75,7 @@ TNext ==
   /\ l <= NEv /\ failed = {}
   /\ l' = l + 1
   /\ failed' = CASE Ev(l).a = "acc" -> AccFailed(Ev(l))
+                 [] Ev(l).a = "helper" -> HelperFailed(Ev(l))
                  [] Ev(l).a = "refuse" -> (IF Cfg.refuseok THEN {} ELSE {"RefusedInDomain"})
                  [] OTHER -> {"Exception"}
   /\ UNCHANGED <<vars, tid>>
